@@ -59,16 +59,13 @@ def offsets(r):
     return [o for _, o in r["index"] if o != 0]
 
 
-def may_overlap(r1, r2, same, nodes):
-    """Can the byte ranges of two cache keys of r1 / r2 overlap for some values of the index and length variables
-    (for the same register: two different keys, i.e. two addresses, or one address under two lengths)?  Overlap is
-    monotone in the lengths, so the largest producible lengths decide."""
+def may_overlap(r1, r2, nodes):
+    """Can the byte ranges of a cache key of r1 and a cache key of r2 (two different registers) overlap for some values
+    of the index and length variables?  Overlap is monotone in the lengths, so the largest producible lengths decide."""
     g = 0
     for o in offsets(r1) + offsets(r2):
         g = gcd(g, abs(o))
     l1, l2 = max(lens(r1, nodes)), max(lens(r2, nodes))
-    if same:
-        return (g != 0 and g < l1) or len([l for l in lens(r1, nodes) if l > 0]) >= 2
     d = r1["addr"] - r2["addr"]          # a1 - a2 ranges over d + t*g
     if g == 0:
         return -l1 < d < l2
@@ -77,17 +74,20 @@ def may_overlap(r1, r2, same, nodes):
 
 
 def declare(nodes, rng=None, extra=False):
-    """The property's hypothesis: every register that can alter another register's bytes is declared as
-    its pInvalidator (and as its own when two of its own addresses can overlap)."""
+    """The property's hypothesis: every register that can alter ANOTHER register's bytes is declared as its
+    pInvalidator.  Nothing is declared for a register's own keys (one address under several lengths, selector positions
+    closer than the length): write_and_cache maintains them itself.  Self-invalidators and others only as random extras."""
     regs = [(i, n) for i, n in enumerate(nodes) if n["t"] == "reg"]
     for i, a in regs:
         for j, b in regs:
-            if may_overlap(a, b, i == j, nodes):
+            if i != j and may_overlap(a, b, nodes):
                 b["inval"].add(i)           # a (the writer) invalidates b
     if extra and rng is not None:
         for j, b in regs:
             if rng.chance(1, 4):
                 b["inval"].add(rng.below(len(nodes) + 1))     # len(nodes) = the Port
+            if rng.chance(1, 10):
+                b["inval"].add(j)
 
 
 def name(i, nodes):
@@ -700,7 +700,7 @@ def sys_plength(rng):
 def plength_boundary():
     """registers whose length is a variable: read / shrink / read (a block cached under the old length must not be
     served), grow after a write while short (the register is its own pInvalidator), lengths the typed node refuses,
-    one address under several lengths, selector and length together, the length written through a pValue wrapper and
+    one address under several lengths, a self-overlapping bank (read slot 1, write slot 0, read slot 1), selector and length together, the length written through a pValue wrapper and
     by a command, the long variant outside the image - under all three caching modes"""
     img = bytes(range(0x41, 0x41 + IMG))
     cs = []
@@ -734,6 +734,12 @@ def plength_boundary():
             case(nodes, [("v", 1), ("v", 2), ("v", 3), ("s", 0, [8]), ("v", 1), ("s", 2, [0x61626364]), ("v", 1), ("v", 3),
                          ("s", 0, [4]), ("v", 1), ("s", 1, [65]), ("v", 2), ("v", 3), ("rr", 4, 2), ("s", 0, [2]), ("v", 1),
                          ("rw", 4, [66, 67]), ("v", 1), ("s", 0, [8]), ("v", 1), ("v", 2)])
+        # a self-overlapping selector bank (slots closer than the length), no pInvalidator owed
+        for kind, wr in (("int", ("s", 1, [0x01020304])), ("raw", ("rw", 1, [4, 3, 2, 1])), ("string", ("s", 1, [97, 98, 99]))):
+            rd = ("rr", 1, 4) if kind == "raw" else ("v", 1)
+            nodes = [var(0), reg(kind, BASE, 4, mode=mode, index=[(0, 2)])]
+            case(nodes, [("s", 0, [1]), rd, ("s", 0, [0]), wr, ("s", 0, [1]), rd, ("s", 0, [2]), rd, ("s", 0, [1]), wr, ("s", 0, [2]), rd,
+                         ("s", 0, [0]), rd])
         # selector and length together; the length variable as the selector
         nodes = [var(4, dom=[2, 4]), var(0), reg("int", BASE, 4, mode=mode, index=[(1, 4)], plen=0), reg("int", BASE + 4, 2, mode="WriteThrough")]
         case(nodes, [("v", 2), ("s", 1, [1]), ("v", 2), ("s", 0, [2]), ("v", 2), ("s", 1, [0]), ("v", 2), ("s", 2, [0x1234]), ("s", 0, [4]),
@@ -899,12 +905,12 @@ RULE = ("register systems of four families - overlapping IntReg/MaskedIntReg/Flo
         "alone, selector addressed, sharing one length variable, the length variable being the selector, struct-level; such "
         "registers are also mixed into the other three families) - each with Integer->pValue wrappers and Command nodes "
         "(also ending in a length variable), all three Cachable modes, pInvalidator lists computed by the property's rule over "
-        "all selector values and all producible lengths (every register whose bytes another can alter declares it, a register "
-        "whose own keys can overlap declares itself; sometimes extra invalidators incl. the Port), registers straddling the end "
+        "all selector values and all producible lengths (every register whose bytes ANOTHER register can alter declares it; "
+        "nothing for a register's own keys; sometimes extra invalidators incl. the register itself and the Port), registers straddling the end "
         "of the device image; histories of 3..30 operations: value / set_value, IRegister::read / write, execute / is_done, "
         "selector changes, length changes (shrink, grow, lengths the typed node refuses, 0; always within 0..16), clear_cache, "
-        "scripted write rejections; fixed boundary histories first (read / shrink / read, grow after a write while short, one "
-        "address under several lengths, all modes and kinds).  Every history runs twice on the real code (DefaultCacheStore vs "
+        "scripted write rejections; fixed boundary histories first (read / shrink / read, read 8 / shrink / write / grow / read, "
+        "self-overlapping bank: read slot 1, write slot 0, read slot 1, one address under several lengths, all modes and kinds).  Every history runs twice on the real code (DefaultCacheStore vs "
         "CacheSink); predicate: equal results, equal final image, equal writes, cached access log a subsequence of the "
         "uncached one, all-NoCache systems have identical logs; both runs are also compared with model/Cache.v (vm_compute).  "
         "non-trivial = caching saved at least one access and the history wrote to the device")
